@@ -8,13 +8,16 @@ from vlib import SPEC
 from checks import c04
 
 D = SPEC / "Race"
-V = [{"thr": 3, "tgts": ["a"], "span": False, "none": False}, {"thr": 5, "tgts": ["a", "b"], "span": False, "none": False},
-     {"thr": 1, "tgts": ["b"], "span": False, "none": False}, {"thr": 4, "tgts": ["a"], "span": False, "none": False}]
-VENV = [{"thr": 3, "tgts": ["a"], "span": False, "none": False}, {"thr": 3, "tgts": ["a"], "span": True, "none": False},
-        {"thr": 1, "tgts": ["a", "b"], "span": False, "none": False}, {"thr": 2, "tgts": ["a"], "span": True, "none": False}]
+def val(thr, tgts, spanl=0, none=False):
+    return {"thr": thr, "tgts": tgts, "spanl": spanl, "none": none}
+
+
+V = [val(3, ["a"]), val(5, ["a", "b"]), val(1, ["b"]), val(4, ["a"])]
+VENV = [val(3, ["a"]), val(3, ["a"], 5), val(1, ["a", "b"]), val(2, ["a"], 5)]
 # a reloadable Option<Targets>: Some(..) -> Some(..) -> None -> Some(..)
-VOPT = [{"thr": 3, "tgts": ["a"], "span": False, "none": False}, {"thr": 2, "tgts": ["a", "b"], "span": False, "none": False},
-        {"thr": 0, "tgts": [], "span": False, "none": True}, {"thr": 1, "tgts": ["b"], "span": False, "none": False}]
+VOPT = [val(3, ["a"]), val(2, ["a", "b"]), val(0, [], none=True), val(1, ["b"])]
+# an EnvFilter edited IN PLACE (Handle::modify + add_directive): only the level of the span-scoped directive changes
+VMOD = [val(2, ["a"], 3), val(2, ["a"], 5), val(2, ["a"], 1), val(2, ["a"], 4)]
 CS = [{"lvl": 3, "tgt": "a"}, {"lvl": 5, "tgt": "b"}, {"lvl": 1, "tgt": "b"}, {"lvl": 4, "tgt": "a"}, {"lvl": 2, "tgt": "a"}]
 hit = lambda c, k="event", inspan=False: {"op": "hit", "c": c, "k": k, "inspan": inspan}
 rl = lambda v: {"op": "reload", "v": v}
@@ -23,7 +26,7 @@ rl = lambda v: {"op": "reload", "v": v}
 def scenarios(rng, n):
     out = []
     for i in range(n):
-        kind = rng.choice(["global", "perlayer", "env", "optglobal"])
+        kind = rng.choice(["global", "perlayer", "env", "optglobal", "envmod"])
         nth = rng.choice([2, 2, 3])
         threads = []
         reloads = [1, 2] if rng.random() < 0.7 else [rng.choice([1, 2, 3])]
@@ -34,12 +37,16 @@ def scenarios(rng, n):
         threads.append(t1)
         for _ in range(nth - 1):
             threads.append([hit(rng.choice(CS), rng.choice(["event", "event", "span"])) for _ in range(rng.choice([3, 4, 5]))])
-        if kind == "env":   # emissions inside a span `w` that a span-scoped directive of the new value may enable
+        if kind == "envmod":
+            for o in t1:
+                if o["op"] == "reload":
+                    o["how"] = "modify_add"
+        if kind in ("env", "envmod"):   # emissions inside a span `w` that a span-scoped directive of the new value may enable
             for th in threads:
                 for o in th:
                     if o["op"] == "hit" and rng.random() < 0.5:
                         o["inspan"], o["k"] = True, "event"
-        out.append({"name": "R-%s-%d" % (kind, i), "collectors": {}, "reload": {"kind": kind, "values": VENV if kind == "env" else VOPT if kind == "optglobal" else V}, "threads": threads})
+        out.append({"name": "R-%s-%d" % (kind, i), "collectors": {}, "reload": {"kind": "env" if kind == "envmod" else kind, "values": VENV if kind == "env" else VMOD if kind == "envmod" else VOPT if kind == "optglobal" else V}, "threads": threads})
     return out
 
 
